@@ -1,4 +1,5 @@
 import Poly.Proofs.KVPrefix
+import Poly.Proofs.KVArena
 /-!
 # C09 — The in-memory write buffer behaves as an ordered map with tombstones
 
@@ -168,6 +169,62 @@ theorem released_iter_fails (it : Iter) (m : Entries) (k : Key) (h : it.released
     (it.first m).2 = false ∧ (it.last m).2 = false ∧ (it.next m).2 = false ∧ (it.prev m).2 = false ∧
     (it.seek m k).2 = false ∧ (it.first m).1.err = true := by
   simp [Iter.first, Iter.last, Iter.next, Iter.prev, Iter.seek, h]
+
+/-! ### The arenas (kvData / nodeData, level 0) refine the node list
+
+`Arena` (Poly.Model.KVArena) is the concrete representation: byte arena, integer arena with node records
+`[kv offset, key length, value length, height, next pointers…]`, overwrite in place that re-appends key and value
+when the new value is non-empty, `n`/`kvSize` maintained incrementally.  `AInv a ps` says the arenas are well
+formed with level-0 chain `ps`.  Node heights are an arbitrary argument (`h`) of every `put`. -/
+
+/-- The arenas reached by any history of writes, with any height oracle. -/
+def runArena (ops : List (Key × Val × Nat)) : Arena := ops.foldl (fun a o => a.put o.1 o.2.1 o.2.2) {}
+
+/-- Refinement step: on well-formed arenas one `Put` — whatever height the oracle supplies — is exactly one `put`
+of the node-list model (same entries in the same order, same `Len`, same `Size`), and well-formedness is kept. -/
+theorem arena_refines_step (a : Arena) (ps : List Nat) (hi : AInv a ps) (k : Key) (v : Val) (h : Nat) :
+    (∃ ps', AInv (a.put k v h) ps') ∧ (a.put k v h).toMemDB = a.toMemDB.put k v := by
+  obtain ⟨ps', h1, h2⟩ := arena_put_refines hi k v h
+  exact ⟨⟨ps', h1⟩, h2⟩
+
+/-- Refinement over histories: for every sequence of writes and every height oracle, the arenas stay well formed
+and abstract to the node-list buffer reached by the same writes (`run`). -/
+theorem arena_refines_omap (ops : List (Key × Val × Nat)) :
+    (∃ ps, AInv (runArena ops) ps) ∧ (runArena ops).toMemDB = run (ops.map fun o => (o.1, o.2.1)) := by
+  have gen : ∀ (ops : List (Key × Val × Nat)) (a : Arena) (ps : List Nat), AInv a ps →
+      (∃ ps', AInv (ops.foldl (fun a o => a.put o.1 o.2.1 o.2.2) a) ps') ∧
+      (ops.foldl (fun a o => a.put o.1 o.2.1 o.2.2) a).toMemDB =
+        (ops.map fun o => (o.1, o.2.1)).foldl (fun p o => p.put o.1 o.2) a.toMemDB := by
+    intro ops
+    induction ops with
+    | nil => intro a ps hi; exact ⟨⟨ps, hi⟩, rfl⟩
+    | cons o r ih =>
+      intro a ps hi
+      obtain ⟨ps', h1, h2⟩ := arena_put_refines hi o.1 o.2.1 o.2.2
+      have := ih _ ps' h1
+      simp only [List.foldl_cons, List.map_cons]
+      rw [← h2]; exact this
+  have := gen ops {} [] AInv.empty
+  exact ⟨this.1, this.2⟩
+
+/-- `Get` on well-formed arenas answers exactly like the node-list model. -/
+theorem arena_get_refines_omap (a : Arena) (ps : List Nat) (hi : AInv a ps) (k : Key) : a.get k = a.toMemDB.get k :=
+  arena_get_refines hi k
+
+/-- Following a node's level-0 pointer (what `dbIter.Next` and `ForEach` do) reaches the node holding the first
+entry with a greater key — the `succ` of the node-list model; the last node points to 0. -/
+theorem arena_next_pointer_is_succ (a : Arena) (ps pre post : List Nat) (p : Nat) (hi : AInv a ps)
+    (hs : ps = pre ++ p :: post) :
+    post.head?.map a.read = succ (a.keyAt p) a.entries ∧ a.next0 p = (match post with | [] => 0 | q :: _ => q) :=
+  arena_next_is_succ hi hs
+
+/-- Non-vacuity of the arena model: overwrite with a non-empty value re-appends the key, with the empty value
+keeps the old offset; offsets follow the heights. -/
+example :
+    let a := runArena [([0x62], [1], 2), ([0x61], [2, 3], 1), ([0x62], [9], 7), ([0x61], [], 5)]
+    a.kv = [0x62, 1, 0x61, 2, 3, 0x62, 9] ∧ a.nd.length = 16 + 6 + 5 ∧ a.n = 2 ∧ a.kvSize = 3 ∧
+    a.entries = [([0x61], []), ([0x62], [9])] ∧ a.chain a.nd.length 0 = [22, 16] ∧ a.cell 16 = 5 ∧ a.cell 22 = 2 := by
+  decide
 
 /-! Non-vacuity: a concrete history with overwrite, delete and prefix-related keys. -/
 example :
